@@ -6,6 +6,7 @@ CONSTANTS
   Types = {}
   RasDims <- RDimsA
   ScaleSets <- ScalesAll
+  Grows = {}
   MaxObjs = 8
   MaxOps = 5
   Mix = FALSE
